@@ -10,6 +10,7 @@ Definition serve_ok (s : st) (e : nat * spc) : Prop :=
   | SInit => guard s = Some GServe /\ scope s <> None /\ stask s = TNone /\ fscope s = None
   | SMain => scope s <> None /\ guard s <> Some GServe /\ fscope s = None
   | SWait => scope s = None /\ stask s <> TRun /\ clients s = 0 /\ guard s <> Some GServe /\ fscope s = None
+  | SQuit => scope s = None /\ stask s = TNone /\ clients s = 0 /\ guard s <> Some GServe /\ fscope s = None
   end.
 
 Record Inv (s : st) : Prop := {
@@ -234,6 +235,14 @@ Proof.
     assert (Hg : guard s = None) by (apply guard_none; auto).
     unfold enter_setup in St. simpl in St. rewrite Hg in St. inversion St; subst.
     constructor; simpl; rewrite ?Hcn; close_fields Hw.
+  - (* LFactoryFail *)
+    destruct (take id (serves s)) as [[pc rest]|] eqn:Tk; try discriminate.
+    destruct pc; try discriminate.
+    destruct (ev_cases s) as [Ev|Ev].
+    { destruct (Hidle Ev) as (A&_). rewrite A in Tk. discriminate. }
+    destruct (Hrun Ev) as (e&A&B&C). rewrite A in Tk. apply take_single in Tk. destruct Tk as [-> ->].
+    unfold serve_ok in B. simpl in B. destruct B as (B1&B2&B3&B4).
+    inversion St; subst. apply end_run_inv; simpl; auto; try congruence. intros i g Hin. apply Hw in Hin. tauto.
   - (* LInitDone *)
     destruct (take id (serves s)) as [[pc rest]|] eqn:Tk; try discriminate.
     destruct pc; try discriminate.
@@ -264,6 +273,17 @@ Proof.
                  unfold serve_ok; simpl; rewrite ?T; repeat split; auto; congruence];
       try solve [intros i X; apply Hct in X; congruence];
       try solve [intros i g Hin; apply Hw in Hin; destruct Hin; split; auto; intros; congruence].
+  - (* LChildrenDone *)
+    destruct (take id (serves s)) as [[pc rest]|] eqn:Tk; try discriminate.
+    destruct pc; try discriminate.
+    destruct (ev_cases s) as [Ev|Ev].
+    { destruct (Hidle Ev) as (A&_). rewrite A in Tk. discriminate. }
+    destruct (Hrun Ev) as (e&A&B&C). rewrite A in Tk. apply take_single in Tk. destruct Tk as [-> ->].
+    unfold serve_ok in B. simpl in B. destruct B as (B1&B2&B3&B4&B5).
+    assert (Hx : Inv (set_stask (set_serves s ([] ++ [(id, SQuit)])) TNone)).
+    { constructor; simpl; auto; try congruence.
+      - intros _. eexists; split; [reflexivity|]. split; [|auto]. unfold serve_ok; simpl. repeat split; auto. }
+    case_in St (stask s) T; try discriminate; case_in St (dying s) Dy; try discriminate; inversion St; subst; exact Hx.
   - (* LServeExit *)
     destruct (take id (serves s)) as [[pc rest]|] eqn:Tk; try discriminate.
     destruct pc; try discriminate.
@@ -271,9 +291,7 @@ Proof.
     { destruct (Hidle Ev) as (A&_). rewrite A in Tk. discriminate. }
     destruct (Hrun Ev) as (e&A&B&C). rewrite A in Tk. apply take_single in Tk. destruct Tk as [-> ->].
     unfold serve_ok in B. simpl in B. destruct B as (B1&B2&B3&B4&B5).
-    assert (Hx : Inv (end_run (set_udpq (set_stask (set_serves s []) TNone) false))).
-    { apply end_run_inv; simpl; auto; try congruence. intros i g Hin. apply Hw in Hin. tauto. }
-    case_in St (stask s) T; try discriminate; case_in St (dying s) Dy; try discriminate; inversion St; subst; exact Hx.
+    inversion St; subst. apply end_run_inv; simpl; auto; try congruence. intros i g Hin. apply Hw in Hin. tauto.
   - (* LTaskDone *)
     case_in St (stask s) T; try discriminate. inversion St; subst.
     apply inv_detach. constructor; simpl; auto; try congruence.
